@@ -3,8 +3,10 @@
 //!   ops.txt   one operation per line (request + observed oracle values `~k=v`), fed to the Lean model
 //!   impl.txt  one canonical result line per operation, produced by the real code
 //!   stats.txt histogram of what was exercised, spec-oracle failures of the implementation
+#![allow(dead_code)]
 mod engines;
 mod rng;
+mod sha1;
 mod util;
 
 use rng::Rng;
